@@ -96,6 +96,7 @@ class Features:
     empty_message: bool = True
     xfile_nested: bool = False  # reference types nested in messages of imported files (D7)
     transitive_ref: bool = False  # a.b.X through two imports (N3)
+    alias_foreign_enum: bool = True  # imported alias expanding to an enum nested in a message / of a third file
     max_files: int = 3
     max_defs: int = 6
     max_fields: int = 8
@@ -163,6 +164,8 @@ class _Builder:
             for d, encl in imp.file._exports:  # type: ignore
                 if encl and not self.feat.xfile_nested:
                     continue
+                if not self.feat.alias_foreign_enum and _alias_mentions_foreign_enum(d):
+                    continue  # N3b: alias of an imported file expanding to an enum of a third file
                 out.append((".".join([imp.name] + [m.name for m in encl] + [d.name]), d))
             if self.feat.transitive_ref:
                 for imp2 in imp.file.imports():
@@ -286,7 +289,7 @@ class _Builder:
         pool = st.one_of(st.integers(0, min(top, 8)), st.sampled_from(sorted({0, 1, top, top // 2, (top + 1) // 2, min(top, 255), min(top, 256)})), st.integers(0, top))
         vals: List[int] = []
         for i in range(n):
-            if i == 0 and d(st.integers(0, 3)) > 0:
+            if i == 0 and d(st.integers(0, 7)) > 0:
                 v = 0
             else:
                 v = d(pool)
@@ -322,6 +325,8 @@ class _Builder:
             r = d(st.integers(0, 11))
             if r == 0 and self.feat.nested and self.feat.enums:
                 e = self.make_enum()
+                e.parent_file = self.file  # type: ignore
+                e.is_nested = True  # type: ignore
                 m.items.append(e)
                 self.done.append((e, tuple(self.open_chain)))
             elif r == 1 and self.feat.nested and depth < self.feat.max_depth:
@@ -385,10 +390,12 @@ class _Builder:
                 self.consts_done.append(c)
             elif kind == "alias" and feat.aliases:
                 a = self.make_alias()
+                a.parent_file = f  # type: ignore
                 f.items.append(a)
                 self.done.append((a, ()))
             elif kind == "enum" and feat.enums:
                 e = self.make_enum()
+                e.parent_file = f  # type: ignore
                 f.items.append(e)
                 self.done.append((e, ()))
             elif kind == "message":
@@ -399,6 +406,25 @@ class _Builder:
         f._exports = list(self.done)  # type: ignore
         f._const_exports = list(self.consts_done)  # type: ignore
         return f
+
+
+def _alias_mentions_foreign_enum(d: Any) -> bool:
+    if not isinstance(d, Alias):
+        return False
+    home = d.parent_file  # type: ignore
+    t = d.type
+    while True:
+        if isinstance(t, TArray):
+            t = t.elem
+        elif isinstance(t, TRef) and isinstance(t.target, Alias):
+            t = t.target.type
+        else:
+            break
+    if not (isinstance(t, TRef) and isinstance(t.target, Enum)):
+        return False
+    # foreign enum (N3b) or enum nested in a message (D7b): both are emitted under a
+    # name that does not resolve in a *third* module using the alias
+    return t.target.parent_file is not home or getattr(t.target, "is_nested", False)  # type: ignore
 
 
 @st.composite
